@@ -5,7 +5,7 @@ records the outcome in seeded/<id>/result.json.  usage: run_seeded_all.py [ids..
 import json, os, re, subprocess, sys
 from concurrent.futures import ThreadPoolExecutor
 HERE = os.path.dirname(os.path.dirname(os.path.abspath(__file__)))
-EXTRA = {"C04-m2": ["C06"], "C10-m3": ["C16"], "C05-m2": ["C06"], "C14-r2m2": ["C08"], "C13-r2m3": ["C15"], "C07-r2m1": ["C06"], "C01-r2m3": ["C06"], "C13-r3m2": ["C06", "C15"], "C07-r3m2": ["C06"], "C06-r3m2": ["C07"], "C16-r3m1": ["C08"], "C15-r3m2": ["C14"], "C14-r3m2": ["C15"], "C04-r3m1": ["C01"], "C04-r3m2": ["C01"], "C03-r4m2": ["C06"], "C15-r4m1": ["C06", "C13"], "C13-r4m2": ["C06"], "C06-r4m1": ["C17"], "C11-r4m1": ["C08"], "C11-r4m2": ["C08", "C09"], "C09-r4m2": ["C08", "C11"], "C14-r4m2": ["C15"], "C16-r4m1": ["C09"], "C10-r4m2": ["C08", "C16"], "C08-r4m1": ["C14"]}
+EXTRA = {"C04-m2": ["C06"], "C10-m3": ["C16"], "C05-m2": ["C06"], "C14-r2m2": ["C08"], "C13-r2m3": ["C15"], "C07-r2m1": ["C06"], "C01-r2m3": ["C06"], "C13-r3m2": ["C06", "C15"], "C07-r3m2": ["C06"], "C06-r3m2": ["C07"], "C16-r3m1": ["C08"], "C15-r3m2": ["C14"], "C14-r3m2": ["C15"], "C04-r3m1": ["C01"], "C04-r3m2": ["C01"], "C03-r4m2": ["C06"], "C15-r4m1": ["C06", "C13"], "C13-r4m2": ["C06"], "C06-r4m1": ["C17"], "C11-r4m1": ["C08"], "C11-r4m2": ["C08", "C09"], "C09-r4m2": ["C08", "C11"], "C14-r4m2": ["C15"], "C16-r4m1": ["C09"], "C10-r4m2": ["C08", "C16"], "C08-r4m1": ["C14"], "C01-r5m2": ["C15"], "C15-r5m1": ["C01"], "C02-r5m2": ["C14"], "C06-r5m1": ["C13"], "C07-r5m2": ["C12"], "C09-r5m2": ["C01", "C05"], "C03-r5m1": ["C07"], "C14-r5m2": ["C08"], "C13-r5m2": ["C07"]}
 ids = sys.argv[1:] or sorted(d for d in os.listdir(os.path.join(HERE, "seeded")) if os.path.isdir(os.path.join(HERE, "seeded", d)))
 
 def one(sid):
